@@ -65,6 +65,14 @@ theorem mget_isSome_iff (m : List (κ × ν)) (k : κ) : (mget m k).isSome = tru
 
 /-! ## Reverse -/
 
+omit [DecidableEq κ] in
+theorem rs_flag (ok : Bool) (o : Option κ) : (if rsDup o.isSome then rsDupVal else ok) = (ok && o.isNone) := by
+  cases o <;> cases ok <;> rfl
+
+omit [DecidableEq κ] in
+theorem fkv_flag (ok : Bool) (o : Option ν) : (if fkvDup o.isSome then fkvDupVal else ok) = (ok && o.isNone) := by
+  cases o <;> cases ok <;> rfl
+
 theorem mapReverse_spec [DecidableEq ν] (m : List (κ × ν)) (k : κ) (v : ν) :
     k ∈ (mget (mapReverse m) v).getD [] ↔ (k, v) ∈ m := by
   induction m with
@@ -83,11 +91,11 @@ theorem mapReverseSingle_spec [DecidableEq ν] (m : List (κ × ν)) :
     (∀ v, (mget (mapReverseSingle m).1 v).isSome = true ↔ ∃ k, (k, v) ∈ m) ∧
     ((mapReverseSingle m).2 = true ↔ (m.map Prod.snd).Nodup) := by
   induction m with
-  | nil => simp [mapReverseSingle, mget_nil]
+  | nil => simp [mapReverseSingle, mget_nil, rsOk0]
   | cons p m ih =>
     obtain ⟨k0, v0⟩ := p
     obtain ⟨ih1, ih2, ih3⟩ := ih
-    simp only [mapReverseSingle]
+    simp only [mapReverseSingle, rs_flag]
     refine ⟨?_, ?_, ?_⟩
     · intro v k h
       rw [mget_mput] at h
@@ -175,7 +183,7 @@ theorem fromKVLoop_get (ks : List κ) (vs : List ν) (m : List (κ × ν)) (ok :
     | nil => simp at hl
     | cons v vs =>
       simp only [List.length_cons, Nat.add_right_cancel_iff] at hl
-      simp only [fromKVLoop]
+      simp only [fromKVLoop, fkv_flag]
       obtain ⟨ih1, ih2⟩ := ih vs (mput m x v) (ok && (mget m x).isNone) hl
       refine ⟨?_, ?_⟩
       · intro hk
@@ -206,7 +214,7 @@ theorem fromKVLoop_ok (ks : List κ) (vs : List ν) (m : List (κ × ν)) (ok : 
     | nil => simp at hl
     | cons v vs =>
       simp only [List.length_cons, Nat.add_right_cancel_iff] at hl
-      simp only [fromKVLoop]
+      simp only [fromKVLoop, fkv_flag]
       rw [ih vs (mput m x v) (ok && (mget m x).isNone) hl]
       simp only [Bool.and_eq_true, List.nodup_cons, List.mem_cons, forall_eq_or_imp, Option.isNone_iff_eq_none]
       constructor
@@ -235,6 +243,10 @@ theorem fromKeysAndValues_spec (keys : List κ) (values : List ν) :
       (∀ k, k ∉ keys → mget m k = none) ∧
       (∀ k, k ∈ keys → ∃ (j : Nat) (v : ν), mget m k = some v ∧ keys[j]? = some k ∧ values[j]? = some v)) := by
   unfold fromKeysAndValues
+  have hp : fkvPanics keys.length values.length = decide (keys.length ≠ values.length) := by
+    simp only [fkvPanics, ne_eq, decide_not, Int.natCast_inj]
+  rw [hp, show fkvOk0 = true from rfl]
+  simp only [decide_eq_true_eq]
   by_cases hl : keys.length = values.length
   · simp only [hl, ne_eq, not_true_eq_false, ↓reduceIte, reduceCtorEq, Option.some.injEq, true_and]
     intro m ok h
@@ -247,6 +259,53 @@ theorem fromKeysAndValues_spec (keys : List κ) (values : List ν) :
     · intro k hk; have := (fromKVLoop_get keys values [] true hl k).1 hk; simpa [mget_nil] using this
     · intro k hk; exact (fromKVLoop_get keys values [] true hl k).2 hk
   · simp [hl]
+
+
+/-! ## bridges: the models are written through the regenerated guards / flag values of `xmaps.go` -/
+
+theorem setIntersection_eq (sets : List (List κ)) :
+    setIntersection sets =
+      match sortBySize sets with
+      | [] => []
+      | s0 :: rest => s0.filter (fun k => rest.all (fun t => decide (k ∈ t))) := by
+  unfold setIntersection
+  cases sets with
+  | nil => rfl
+  | cons a as =>
+    have : interEmpty ((a :: as).length : Int) = false := by
+      simp only [interEmpty, List.length_cons, decide_eq_false_iff_not]; omega
+    rw [this]
+    simp only [Bool.false_eq_true, ↓reduceIte]
+    cases sortBySize (a :: as) with
+    | nil => rfl
+    | cons s0 rest =>
+      have hd : (s0 :: rest).drop interJ0.toNat = rest := rfl
+      simp only [interStores, interInclude, hd, interMiss, Bool.not_not, interInclude0, interMissVal]
+      congr 1; funext k; cases (rest.all fun t => decide (k ∈ t)) <;> rfl
+
+theorem setIntersects_eq (sets : List (List κ)) :
+    setIntersects sets =
+      match sortBySize sets with
+      | [] => false
+      | s0 :: rest => s0.any (fun k => rest.all (fun t => decide (k ∈ t))) := by
+  unfold setIntersects
+  cases sets with
+  | nil => rfl
+  | cons a as =>
+    have : intsEmpty ((a :: as).length : Int) = false := by
+      simp only [intsEmpty, List.length_cons, decide_eq_false_iff_not]; omega
+    rw [this]
+    simp only [Bool.false_eq_true, ↓reduceIte]
+    cases sortBySize (a :: as) with
+    | nil => rfl
+    | cons s0 rest =>
+      have hd : (s0 :: rest).drop intsJ0.toNat = rest := rfl
+      simp only [intsHit, intsInclude, hd, intsMiss, Bool.not_not, intsInclude0, intsMissVal, intsHitRet, intsEndRet]
+      have : (fun k => if (rest.all fun t => decide (k ∈ t)) = true then true else false) =
+          (fun k => rest.all fun t => decide (k ∈ t)) := by
+        funext k; cases (rest.all fun t => decide (k ∈ t)) <;> rfl
+      rw [this]
+      cases (s0.any fun k => rest.all fun t => decide (k ∈ t)) <;> rfl
 
 /-! ## Sets -/
 
@@ -305,7 +364,7 @@ theorem mem_sortBySize (sets : List (List κ)) (t : List κ) : t ∈ sortBySize 
 
 theorem mem_setIntersection (sets : List (List κ)) (x : κ) :
     x ∈ setIntersection sets ↔ sets ≠ [] ∧ ∀ s ∈ sets, x ∈ s := by
-  unfold setIntersection
+  rw [setIntersection_eq]
   have hm := mem_sortBySize sets
   cases hs : sortBySize sets with
   | nil =>
@@ -330,7 +389,7 @@ theorem mem_setIntersection (sets : List (List κ)) (x : κ) :
 
 theorem setIntersects_iff (sets : List (List κ)) :
     setIntersects sets = true ↔ sets ≠ [] ∧ ∃ x, ∀ s ∈ sets, x ∈ s := by
-  unfold setIntersects
+  rw [setIntersects_eq]
   have hm := mem_sortBySize sets
   cases hs : sortBySize sets with
   | nil =>
@@ -354,6 +413,6 @@ theorem setIntersects_iff (sets : List (List κ)) :
       exact ⟨x, h s0 ((hm s0).mp (List.mem_cons_self ..)), fun t ht => h t ((hm t).mp (List.mem_cons_of_mem _ ht))⟩
 
 theorem mem_setDifference (a b : List κ) (x : κ) : x ∈ setDifference a b ↔ x ∈ a ∧ x ∉ b := by
-  simp [setDifference]
+  simp [setDifference, diffKeeps]
 
 end Juniper.Proofs.Helpers
